@@ -44,7 +44,8 @@ CHECKS = {
              "trace equality after reload (argued from identical persisted model + C02 determinism); Data values (delegated to to_string/parse).", "§5 C05"),
     "C06": C("custom HIR/MIR rules: dominance of history recording over removal (K2), filter and key provenance (K3), who-may-write historyValue (K1)",
              "history values are recorded from the configuration before anything is removed; deep/shallow filters and keys; the history branch of "
-             "addDescendantStatesToEnter and getEffectiveTargetStates; order onentry, initial content, default history content from the per-microstep table.",
+             "addDescendantStatesToEnter and getEffectiveTargetStates (descendants and ancestors entered in two separate passes); order onentry, initial content, "
+             "default history content from the per-microstep table, the latter under exactly the has(s) test of that table.",
              "equality of restored and recorded configuration over histories.", "§5 C06"),
     "C07": C("custom HIR/MIR rules: guard shape of the final branch (K2/K3), reachability after running=false in the MIR CFG (K2), spec vocabulary coverage (K12)",
              "done.state.<parent> with evaluated donedata, done.state.<grandparent> iff parallel and every child region final, one enqueue each; running=false "
@@ -53,7 +54,7 @@ CHECKS = {
              "'exactly once' counts over event histories.", "§5 C07"),
     "C08": C("custom HIR rules: sibling agreement of executeContent loops (K4), branch polarity (K2), error-discipline fixpoint over fallible/raising summaries (K2)",
              "content runs in Vec order and stops at the first false; if/else polarity; every call to a fallible evaluation API reaches an error-event enqueue on its "
-             "Err path (or hands the Err on); assign writes only occupied writable entries; foreach sets item/index before the body.",
+             "Err path (or hands the Err on); assign writes only occupied writable entries; foreach sets item/index before the body and a false body ends it with false.",
              "which branch runs for given data (values).", "§5 C08"),
     "C09": C("custom HIR/MIR rules: sibling agreement of the three In() implementations and two set_event tables (K4), read-only installation and deep read-only (K2/K3), dominance in interpret/enterStates (K2)",
              "In() tests the live configuration; the seven _event fields are fed from the matching Event fields; system variables are installed read-only and "
@@ -61,7 +62,7 @@ CHECKS = {
              "what _event holds at every evaluation point.", "§5 C09"),
     "C10": C("custom HIR rules with partial evaluation: priority/associativity tables extracted from the scan and tie-break (K4), operator dispatch tables (K4), numeric tower (K4), get_copy field coverage (K11)",
              "operator priority classes; grouping direction per class; each Operator variant maps to its own operation_*; Integer x Integer stays Integer with "
-             "saturating ops, mixed is Double, divide is Double; the 13 get_copy implementations rebuild every field; cache keys.",
+             "saturating ops, mixed is Double, divide is Double; the 13 get_copy implementations rebuild every field; no field of an Expression node holds a shared handle or interior mutability; cache keys.",
              "the value of an arbitrary expression; whitespace independence of the lexer.", "§5 C10"),
     "C11": C("diverging-edge audit over the call-graph region (K5) with checked len-guard discharge and guard-count fingerprints; lock nesting from a MIR held-guard dataflow (K6); recursion SCCs; lexer un-read discipline (K2)",
              "every panic-capable edge reachable from the rfsm-expression entry points is a harmless class, structurally discharged, audited with a reason or a finding; "
@@ -79,7 +80,8 @@ CHECKS = {
     "C14": C("custom HIR/MIR rules: who-may-touch statesToInvoke/child_sessions (K1), ordering by MIR reachability (K2), provenance of finalize/autoforward targets (K3)",
              "statesToInvoke add/delete/clear sites and their order relative to the exit loop, the invoke loop and recv; child_sessions insert only on Ok, removal "
              "before the cancel send, cancellation of exactly the exited state's invokes; finalize position and guard; autoforward must not depend on the event's "
-             "invoke id; passed data only for declared <data>.",
+             "invoke id; passed data only for declared <data>; finalize lookup before the done.invoke removal; onexit content before cancelInvoke; one document id "
+             "per <invoke> from the reader's counter.",
              "relative timing of child events, completion and cancellation.", "§5 C14"),
     "C15": C("custom HIR rules with partial evaluation of the dispatch per representative target (K4), write-set of the event between construction and enqueue (K1/K3), constant agreement (K4), atomic-use query (K1)",
              "the dispatch table of the SCXML processor (one delivery per target form, none in a loop), origin/origintype stamped before dispatch, event fields flow "
